@@ -24,6 +24,9 @@ Record ccase : Type := mkCase {
   k_tdefs : list tdef;
   k_tool_list : option (list tdef); (* call option compose.WithToolList: the tools of the tools node for this call *)
   k_fail_args : list string;       (* a tool called with one of these argument strings fails *)
+  k_outs : list (string * list string); (* a tool called with this argument string streams these chunks (>= 1, any of
+                                      them empty) and returns their concatenation when invoked; any other argument
+                                      string: name(args), streamed as name, "(", args, ")" *)
   k_handler : bool;                (* UnknownToolsHandler configured (answers "unk:name:args") *)
   k_rd : list string;              (* ToolReturnDirectly *)
   k_max_step : nat;                (* AgentConfig.MaxStep (0 = default) *)
@@ -41,10 +44,19 @@ Record ccase : Type := mkCase {
 Fixpoint mem_str (s : string) (l : list string) : bool :=
   match l with [] => false | x :: r => String.eqb s x || mem_str s r end.
 
-Definition h_inv (fails : list string) (name args : string) : tres :=
-  if mem_str args fails then TErr 100 else TOk (name ++ "(" ++ args ++ ")").
-Definition h_str (fails : list string) (name args : string) : sres :=
-  if mem_str args fails then SErr 100 else SOk [name; "("; args; ")"] None.
+Fixpoint out_lookup (outs : list (string * list string)) (args : string) : option (list string) :=
+  match outs with
+  | [] => None
+  | (a, cs) :: r => if String.eqb a args then Some cs else out_lookup r args
+  end.
+
+Definition h_chunks (outs : list (string * list string)) (name args : string) : list string :=
+  match out_lookup outs args with Some cs => cs | None => [name; "("; args; ")"] end.
+
+Definition h_inv (fails : list string) (outs : list (string * list string)) (name args : string) : tres :=
+  if mem_str args fails then TErr 100 else TOk (concat_strings (h_chunks outs name args)).
+Definition h_str (fails : list string) (outs : list (string * list string)) (name args : string) : sres :=
+  if mem_str args fails then SErr 100 else SOk (h_chunks outs name args) None.
 
 Fixpoint kind_lookup (tools : list tdef) (name : string) : option tkind :=
   match tools with
@@ -68,7 +80,7 @@ Definition case_tdefs (c : ccase) (callopts : bool) : list tdef :=
   end.
 
 Definition case_tn (c : ccase) (callopts : bool) (calls : list call) : res (list tmsg) :=
-  in_graph (tools_invoke (kind_lookup (case_tdefs c callopts)) (h_inv (k_fail_args c)) (h_str (k_fail_args c))
+  in_graph (tools_invoke (kind_lookup (case_tdefs c callopts)) (h_inv (k_fail_args c) (k_outs c)) (h_str (k_fail_args c) (k_outs c))
                          (h_handler (k_handler c)) (seq 0 (List.length calls)) true calls).
 
 Definition case_executed (c : ccase) (callopts : bool) (calls : list call) : list call :=
